@@ -1753,7 +1753,9 @@ class HTMLDependency(MetadataNode):
             lib_prefix=lib_prefix, include_version=include_version
         )["href"]
 
-        stylesheets = deepcopy(self.stylesheet)
+        # Copy item by item: deepcopy() of the whole list would map an item object that is
+        # listed twice to ONE copy, whose URL would then be prefixed twice.
+        stylesheets = [deepcopy(s) for s in self.stylesheet]
         for s in stylesheets:
             href = urllib.parse.quote(s["href"])
             s.update(
@@ -1763,7 +1765,7 @@ class HTMLDependency(MetadataNode):
                 }
             )
 
-        scripts = deepcopy(self.script)
+        scripts = [deepcopy(s) for s in self.script]
         for s in scripts:
             src = urllib.parse.quote(s["src"])
             s.update({"src": posixpath.join(source_href, src)})
